@@ -42,7 +42,10 @@ func CloneNode(node ast.Node) ast.Node {
 		return ast.NewBlock(ClonePosition(n.Position), nodes)
 
 	case *ast.Break:
-		label := CloneExpression(n.Label).(*ast.Identifier)
+		var label *ast.Identifier
+		if n.Label != nil {
+			label = CloneExpression(n.Label).(*ast.Identifier)
+		}
 		return ast.NewBreak(ClonePosition(n.Position), label)
 
 	case *ast.Case:
@@ -78,7 +81,10 @@ func CloneNode(node ast.Node) ast.Node {
 		return ast.NewConst(ClonePosition(n.Position), idents, typ, values, n.Index)
 
 	case *ast.Continue:
-		label := CloneExpression(n.Label).(*ast.Identifier)
+		var label *ast.Identifier
+		if n.Label != nil {
+			label = CloneExpression(n.Label).(*ast.Identifier)
+		}
 		return ast.NewContinue(ClonePosition(n.Position), label)
 
 	case *ast.Defer:
@@ -184,7 +190,11 @@ func CloneNode(node ast.Node) ast.Node {
 		return imp
 
 	case *ast.Label:
-		return ast.NewLabel(ClonePosition(n.Position), CloneExpression(n.Ident).(*ast.Identifier), CloneNode(n.Statement))
+		var statement ast.Node
+		if n.Statement != nil {
+			statement = CloneNode(n.Statement)
+		}
+		return ast.NewLabel(ClonePosition(n.Position), CloneExpression(n.Ident).(*ast.Identifier), statement)
 
 	case *ast.Package:
 		var nn = make([]ast.Node, 0, len(n.Declarations))
@@ -194,7 +204,11 @@ func CloneNode(node ast.Node) ast.Node {
 		return ast.NewPackage(ClonePosition(n.Position), n.Name, nn)
 
 	case *ast.Raw:
-		return ast.NewRaw(ClonePosition(n.Position), n.Marker, n.Tag, CloneNode(n.Text).(*ast.Text))
+		var text *ast.Text
+		if n.Text != nil {
+			text = CloneNode(n.Text).(*ast.Text)
+		}
+		return ast.NewRaw(ClonePosition(n.Position), n.Marker, n.Tag, text)
 
 	case *ast.Return:
 		var values []ast.Expression
@@ -393,7 +407,11 @@ func CloneExpression(expr ast.Expression) ast.Expression {
 			ident = ast.NewIdentifier(ClonePosition(e.Ident.Position), e.Ident.Name)
 		}
 		typ := CloneExpression(e.Type).(*ast.FuncType)
-		expr2 = ast.NewFunc(ClonePosition(e.Position), ident, typ, CloneNode(e.Body).(*ast.Block), false, e.Format)
+		var body *ast.Block
+		if e.Body != nil {
+			body = CloneNode(e.Body).(*ast.Block)
+		}
+		expr2 = ast.NewFunc(ClonePosition(e.Position), ident, typ, body, false, e.Format)
 
 	case *ast.FuncType:
 		var parameters []*ast.Parameter
@@ -488,7 +506,10 @@ func CloneExpression(expr ast.Expression) ast.Expression {
 	return expr2
 }
 
-// ClonePosition returns a copy of position pos.
+// ClonePosition returns a copy of position pos. If pos is nil, it returns nil.
 func ClonePosition(pos *ast.Position) *ast.Position {
+	if pos == nil {
+		return nil
+	}
 	return &ast.Position{Line: pos.Line, Column: pos.Column, Start: pos.Start, End: pos.End}
 }
